@@ -21,8 +21,10 @@ BASE = os.path.join(VERIF, "recipes", "inventory.json")
 GROUPS = {
     "codegen": ("graphql_client_codegen/src/", ["C%02d" % i for i in range(1, 15)] + ["C16", "C17", "C18"]),
     # the derive attribute is the front door of every option: the properties stated over options read through it are its concern too
-    "derive": ("graphql_query_derive/src/", ["C18", "C02", "C05", "C04", "C09", "C14", "C03", "C11"]),
-    "client": ("graphql_client/src/", ["C01", "C03", "C05", "C15", "C16"]),
+    "derive": ("graphql_query_derive/src/", ["C18", "C02", "C05", "C04", "C09", "C14", "C03", "C11", "C08"]),
+    # (the generated code names items of this crate - `GraphQLQuery`, `_private::serde`, `serde_with`, `QueryBody` - so what it compiles
+    # against and what goes on the wire is this crate's concern too)
+    "client": ("graphql_client/src/", ["C01", "C03", "C05", "C15", "C16", "C02", "C04", "C09"]),
     "cli": ("graphql_client_cli/src/", ["C19", "C20"]),
     # the deserialized introspection result (both response shapes) and the introspection queries the CLI sends
     "introspection": ("graphql-introspection-query/src/", ["C07", "C20"]),
